@@ -35,6 +35,46 @@ def parse_schema(sch):
     return r.unwrap(), text
 
 
+def parse_schema_split(sch, workdir, variant):
+    """the same abstract schema written as SEVERAL files and loaded with get_fcp -> (FcpV2, {path: text}).
+    variant 0: main holds the types and imports `bindings` (impls, services, devices) at its end;
+    variant 1: main imports `lib.types` (enums, structs) first and holds the rest;
+    variant 2: types in `lib/types`, bindings split over `net/a` and `net/b` (alternating), main only imports.
+    Raises RuntimeError when the front end rejects it."""
+    import os
+    import shutil
+    from fcp.parser import get_fcp
+    from fcp.error import Logger
+    types = {"enums": sch.get("enums", []), "structs": sch.get("structs", [])}
+    rest = {k: sch.get(k, []) for k in ("impls", "services", "devices")}
+    files = {}
+    if variant == 0:
+        files["main.fcp"] = glue.schema_text(types) + "\nmod bindings;\n"
+        files["bindings.fcp"] = glue.schema_text(rest)
+    elif variant == 1:
+        body = glue.schema_text(rest).split("\n")
+        files["main.fcp"] = "\n".join(body[:1] + ["", "mod lib.types;"] + body[1:])
+        files["lib/types.fcp"] = glue.schema_text(types)
+    else:
+        a = dict(rest, impls=rest["impls"][0::2], services=[], devices=[])
+        b = dict(rest, impls=rest["impls"][1::2])
+        files["main.fcp"] = 'version: "3"\n\nmod lib.types;\nmod net.a;\nmod net.b;\n'
+        files["lib/types.fcp"] = glue.schema_text(types)
+        files["net/a.fcp"] = glue.schema_text(a)
+        files["net/b.fcp"] = glue.schema_text(b)
+    root = os.path.join(workdir, "split")
+    shutil.rmtree(root, ignore_errors=True)
+    for rel, text in files.items():
+        p = os.path.join(root, rel)
+        os.makedirs(os.path.dirname(p), exist_ok=True)
+        with open(p, "w") as f:
+            f.write(text)
+    r = get_fcp(os.path.join(root, "main.fcp"), Logger({}))
+    if r.is_err():
+        raise RuntimeError("front end rejected the split form of a generated schema: %r\n%s" % (r.err(), files))
+    return r.unwrap(), files
+
+
 def encode(fcp, sch, root, value):
     """-> ("ok", [bytes]) | ("raised", "Type: msg")"""
     from fcp import serde
